@@ -22,8 +22,9 @@ class MergeConflict(Exception):
     pass
 
 
-def _align(base, cur):
-    """-> list m of len(base): m[i] = index in cur matched to base[i], or None"""
+def _align(base, cur, coarse=False):
+    """-> list m of len(base): m[i] = index in cur matched to base[i], or None.
+    coarse: only the common prefix and suffix are aligned (the whole middle counts as rewritten)"""
     n, k = len(base), len(cur)
     p = 0
     while p < n and p < k and base[p] == cur[p]:
@@ -56,7 +57,7 @@ def _align(base, cur):
     for i in range(s):
         m[n - 1 - i] = k - 1 - i
     mb, mc = base[p:n - s], cur[p:k - s]
-    if mb and mc:
+    if mb and mc and not coarse:
         sm = difflib.SequenceMatcher(None, mb, mc, autojunk=False)
         for a, b, size in sm.get_matching_blocks():
             # ignore tiny accidental matches of pure punctuation inside a rewritten block
@@ -69,7 +70,7 @@ def _align(base, cur):
     return m
 
 
-def merge3(base, ann, cur, dropped=None):
+def merge3(base, ann, cur, dropped=None, coarse=False):
     """base is ignored except for a consistency check: it must equal erase(ann)."""
     pairs = E.erase_idx(ann)
     b2 = [t for t, _ in pairs]
@@ -95,11 +96,23 @@ def merge3(base, ann, cur, dropped=None):
         if run:
             runs[g] = run
         prev = nxt if g < n else prev
-    m = _align(base, cur)
-    # where do the runs go in cur?  after[c] = runs placed after cur[c] (c = -1: at the very start)
-    after = {}
     if dropped is None:
         dropped = []
+    m = _align(base, cur, coarse)
+    if coarse:
+        # proof hints (proof blocks, asserts, ghost lets) that touch the rewritten middle are hints about code that is gone
+        lo = 0
+        while lo < n and m[lo] is not None and m[lo] == lo:
+            lo += 1
+        hi = n
+        while hi > lo and m[hi - 1] is not None:
+            hi -= 1
+        for g in list(runs):
+            if lo <= g <= hi and runs[g][0] in ("proof", "assert", "let", "broadcast", "assume"):
+                dropped.append(" ".join(runs[g][:16]))
+                del runs[g]
+    # where do the runs go in cur?  after[c] = runs placed after cur[c] (c = -1: at the very start)
+    after = {}
     for g, run in runs.items():
         left = m[g - 1] if g > 0 else -1
         right = m[g] if g < n else len(cur)
